@@ -142,6 +142,12 @@ def gen(c):
         for sv, sn in ((n, "n"), (0, "zero")):
             dgf = i2b(e_forged)
             offer("rs:forged_s_%s:%x" % (sn, rr % 65536), rr, sv, seq(dint(rr), dint(sv)), dg=dgf, ifaces=("dgst", "do"))
+    # r + s = n makes t = 0: the equation then only involves [s]G, so with the digest e = r - x([s]G) the pair "verifies" under every key
+    # unless t = 0 is refused -- accepted exactly when the modular addition or the t check is off at the boundary
+    for rr in (r0, 1, 2, n - 1, rng.randrange(1, n)):
+        ss = n - rr
+        Qs = mul(ss, G)
+        offer("rs:forged_t_zero:%x" % (rr % 65536), rr, ss, seq(dint(rr), dint(ss)), dg=i2b((rr - Qs[0]) % n), ifaces=("dgst", "do"))
     offer("rs:other_r", (r0 + 1) % n or 1, s0, seq(dint((r0 + 1) % n or 1), dint(s0)))
     # context mutations
     offer("ctx:other_key", r0, s0, seq(dint(r0), dint(s0)), pubkey=P2)
